@@ -250,6 +250,15 @@ def call_method(engine, st, fr, recv, mname, args, kwargs, star, starkw, node):
     elif kind == "future":
         for r in b_future.foreign_future_method(engine, st, fr, recv, name, a, kwargs, node):
             yield r
+    elif kind == "anyfuture":
+        # either a foreign future (FUT contract) or one of the library's own plain Future objects
+        for st1, own in engine.branch(st, cls_of(Val.id(recv.t)) == engine.tag("Future"), "receiver is a plain Future made by the library"):
+            if own:
+                for r in b_future.future_method(engine, st1, fr, Z(recv.t, ("inst", "Future")), name, a, kwargs, node):
+                    yield r
+            else:
+                for r in b_future.foreign_future_method(engine, st1, fr, Z(recv.t, "future"), name, a, kwargs, node):
+                    yield r
     elif kind in ("executor", "Executor", "ThreadPoolExecutor", "ProcessPoolExecutor"):
         if kind != "executor" and name == "__init__":
             yield st, None
